@@ -1591,3 +1591,62 @@ def rule_B7(prog):
                        ", ".join("line %d, hook type %s" % b for b in bad) or "no inner call found"),
                    file=fn.file, line=bad[0][0] if bad else fn.line)
     return r
+
+
+# ------------------------------------------------------------------ B8: a buffered op taken out of an adapter is not discarded
+def rule_B8(prog):
+    r = RuleResult("B8", "what an adapter has buffered is either kept or emitted: a value taken out of a buffer field of a hook "
+                         "adapter (`self.del.take()`, `mem::take(&mut self.x)`) is not handed to a combinator that can silently "
+                         "discard it (`filter`, `take_if`, `and`, `xor`, `zip`, `is_some`/`is_none` ..): a pending deletion that "
+                         "is dropped is missing from the script")
+    LOSSY = ("filter", "take_if", "and", "xor", "zip", "is_some", "is_none", "is_some_and", "is_none_or")
+    pr = proto(prog)
+    adapters = {ty_head(imp["self_ty"]) for imp in pr.impls}
+    for fn in prog.user_fns():
+        if not fn.mir or fn.kind == "Closure" or not fn.impl or ty_head(fn.impl.get("self_ty")) not in adapters:
+            continue
+        m = fn.mir
+        takes = {}       # dest local -> field path
+        for bb, t in m.calls():
+            c = m.callee(t) or {}
+            p_ = c.get("path", "")
+            if p_ in ("std::option::Option::<T>::take", "std::mem::take", "std::mem::replace") and t["args"] and not t["dest"]["proj"]:
+                fld = _b6_self_field_term(m.resolve_operand(t["args"][0]))
+                if fld:
+                    takes[t["dest"]["l"]] = fld
+        if not takes:
+            continue
+
+        def source(term, depth=0):
+            """the buffer field a value was taken from, following moves and value-preserving Option adapters"""
+            from .guard import strip
+            term = strip(term)
+            if not isinstance(term, tuple) or depth > 8:
+                return None
+            if term[0] == "call":
+                p2 = term[1]
+                if p2 in ("std::option::Option::<T>::take", "std::mem::take", "std::mem::replace"):
+                    return _b6_self_field_term(term[2][0]) if term[2] else None
+                if p2.startswith("std::option::Option::<T>::") and p2.rsplit("::", 1)[-1] in ("map", "or", "or_else", "as_ref", "as_mut", "copied", "cloned", "inspect"):
+                    return source(term[2][0], depth + 1) if term[2] else None
+                return None
+            if term[0] == "local" and isinstance(term[2], int) and term[2] > m.arg_count:
+                e = m.expand(term, depth=1)
+                return source(e, depth + 1) if e != term else None
+            return None
+
+        for bb, t in m.calls():
+            c = m.callee(t) or {}
+            p_ = c.get("path", "")
+            if not p_.startswith("std::option::Option::<T>::") or p_.rsplit("::", 1)[-1] not in LOSSY or not t["args"]:
+                continue
+            src = source(m.resolve_operand(t["args"][0]))
+            if src is None:
+                continue
+            r.instances += 1
+            r.ob(False, "%s: `%s` may discard what was taken out of self.%s" % (fn.path, t.get("src", p_)[:60], src))
+            r.find(fn.path, "buffer-dropped:%s:%s" % (src, p_.rsplit("::", 1)[-1]),
+                   "`%s`: the value taken out of the buffer `self.%s` goes through `%s`, which can discard it: a buffered op that is "
+                   "neither kept nor emitted is missing from the script" % (t.get("src", p_)[:80], src, p_.rsplit("::", 1)[-1]),
+                   file=fn.file, line=t["line"])
+    return r
